@@ -28,6 +28,7 @@ from rules import c01_sym as S
 from rules.c01_sym import Single, ListItem, accstr, pathstr, Unint
 from rules.c01_roles import Roles
 from rules import c01_place
+from rules import c01_loopctx
 
 # ---------------------------------------------------------------------------------------------------------------------
 # Expected order where it differs from declaration order (frozen; one reason each):
@@ -98,6 +99,7 @@ def run(chk, F):
     rules_r1_r2(chk, A, R)
     rule_r4(chk, F, c, R, A)
     c01_place.rule_r5(chk, c, R, A)
+    c01_loopctx.run(chk, F)
     chk.assumptions += [
         "partial claim: decides, on the generator's own code, how often and in which order the code of the children of "
         "each expression/statement node is emitted; what the emitted instructions compute, traps, value/reference "
